@@ -170,6 +170,20 @@ pub fn run(tier: &str) -> i32 {
             let mut acc = Acc::default();
             crate::adapter::freeze_default_clock();
             let key = crate::domains::key_pool(*p)[0].clone();
+            // an earlier set_claim on ANOTHER builder of this thread whose value cannot be serialised (a map with
+            // tuple keys): whatever it does (error, panic), later builders must be unaffected
+            {
+                let mut bad = std::collections::BTreeMap::new();
+                bad.insert((1u8, 2u8), 3u8);
+                let _ = crate::adapter::guard(|| {
+                    use rusty_paseto::prelude::*;
+                    let mut b = GenericBuilder::<V4, Local>::default();
+                    if let Ok(c) = CustomClaim::try_from(("bad", bad.clone())) {
+                        b.set_claim(c);
+                    }
+                });
+                acc.bump("poison-pre-step");
+            }
             let hostile = crate::domains::hostile_texts();
             for (i, h) in hostile.iter().enumerate() {
                 if matches!(p, Proto::V1P | Proto::V3P) && i % 4 != 0 {
